@@ -1,6 +1,7 @@
 //! C16 — no input makes the assembler panic, overflow its stack, or hang (E1 + E3 in the E5 sandbox).
 
 use std::collections::{BTreeMap, BTreeSet};
+use std::sync::atomic::{AtomicU64, Ordering};
 use std::sync::Mutex;
 use std::time::Duration;
 
@@ -370,7 +371,7 @@ pub fn run(tier: Tier) -> i32 {
         });
         probe(&mut cases, &mut meta, "label-macro-doubling-chain", n, {
             let m = [4usize, 8, 12, 16, 24][ladder.iter().position(|x| *x == n).unwrap_or(0)];
-            let mut s = format!(".macro lm0\n{}.endm\n", ".set lm_v = 1\n.def lm_r = r16\n".repeat(150));
+            let mut s = format!(".device ATtiny13\n.macro lm0\n{}.endm\n", ".set lm_v = 1\n.def lm_r = r16\n".repeat(150));
             for i in 1..=m {
                 s.push_str(&format!(".macro lm{}\nlm{}\nlm{}\n.endm\n", i, i - 1, i - 1));
             }
@@ -541,6 +542,77 @@ pub fn run(tier: Tier) -> i32 {
             }
         }
     }
+    // the size probes once more through the command-line tool as `cargo build` produces it (dev
+    // profile: the largest stack frames; main thread: the 8 MiB a user gets), 1 GiB, 30 s of CPU
+    if std::env::var("VERIF_VERBOSE").is_ok() {
+        eprintln!("[{:7.1}s] sandbox pass done", rep.elapsed());
+    }
+    let n_cli = AtomicU64::new(0);
+    let cli_bin = std::env::var("AVRA_BIN").ok().map(std::path::PathBuf::from).filter(|p| p.exists());
+    if let Some(bin) = &cli_bin {
+        use rayon::prelude::*;
+        let idxs: Vec<usize> = (0..cases.len())
+            .filter(|i| {
+                // the probes about depth: nesting, chains, lists, cycles (the others exercise sizes
+                // and arithmetic, which do not depend on the build profile)
+                let p = &meta[*i].probe;
+                meta[*i].origin == "size-probe" && cases[*i].kind == b'S' && !p.contains("doubling") && ["nest", "unary", "leaning", "precedence", "chain", "operand-list", "cyclic", "self-referring", "function"].iter().any(|k| p.contains(k))
+            })
+            .collect();
+        idxs.par_iter().for_each(|i| {
+            use std::os::unix::process::{CommandExt, ExitStatusExt};
+            let f = scratch.path.join(format!("cli_probe_{}.asm", i));
+            if std::fs::write(&f, &cases[*i].text).is_err() {
+                return;
+            }
+            let mut cmd = std::process::Command::new(bin);
+            cmd.arg("-s").arg(&f).arg("-o").arg(scratch.path.join(format!("cli_probe_{}.hex", i))).arg("-e").arg(scratch.path.join(format!("cli_probe_{}.eep", i)));
+            cmd.stdin(std::process::Stdio::null()).stdout(std::process::Stdio::null()).stderr(std::process::Stdio::piped()).env("RUST_BACKTRACE", "0");
+            unsafe {
+                cmd.pre_exec(|| {
+                    let mem = libc::rlimit { rlim_cur: 1 << 30, rlim_max: 1 << 30 };
+                    libc::setrlimit(libc::RLIMIT_AS, &mem);
+                    let cpu = libc::rlimit { rlim_cur: 30, rlim_max: 31 };
+                    libc::setrlimit(libc::RLIMIT_CPU, &cpu);
+                    let z = libc::rlimit { rlim_cur: 0, rlim_max: 0 };
+                    libc::setrlimit(libc::RLIMIT_CORE, &z);
+                    Ok(())
+                });
+            }
+            let t0 = std::time::Instant::now();
+            let out = match cmd.output() {
+                Ok(o) => o,
+                Err(e) => crate::report::machinery_fail(&format!("cannot run {:?}: {}", bin, e)),
+            };
+            if std::env::var("VERIF_VERBOSE").is_ok() && t0.elapsed().as_secs_f64() > 0.7 {
+                eprintln!("[cli {:5.1}s] {}", t0.elapsed().as_secs_f64(), meta[*i].probe);
+            }
+            n_cli.fetch_add(1, Ordering::Relaxed);
+            for ext in ["asm", "hex", "eep"] {
+                let _ = std::fs::remove_file(scratch.path.join(format!("cli_probe_{}.{}", i, ext)));
+            }
+            let err = String::from_utf8_lossy(&out.stderr).to_string();
+            let how: Option<String> = if let Some(sig) = out.status.signal() {
+                Some(if err.contains("overflowed its stack") { "stack-overflow".to_string() } else if sig == libc::SIGXCPU || sig == libc::SIGKILL { "cpu-limit".to_string() } else { format!("signal-{}", sig) })
+            } else if out.status.code() == Some(101) {
+                Some("panic".to_string())
+            } else if err.contains("memory allocation") {
+                Some("out-of-memory".to_string())
+            } else {
+                None
+            };
+            if let Some(how) = how {
+                let name = meta[*i].probe.split("/n=").next().unwrap_or("").to_string();
+                let text = &cases[*i].text;
+                rep.violation(&format!("C16/cli-dev-profile/{}/probe={}", how, name), || format!("the command-line tool (dev profile) on probe {} ({} bytes): {}; stderr: {}", meta[*i].probe, text.len(), how, err.lines().last().unwrap_or("")), || {
+                    json!({"kind": "cli", "argv": ["-s", "probe.asm"], "files": {"probe.asm": if text.len() > 70000 { format!("{}…", &text[..2000]) } else { text.clone() }}, "expected": "exit status 0 or 1 within the limits", "observed": {"how": how, "stderr_tail": err.lines().last().unwrap_or("")}})
+                });
+            }
+        });
+    }
+    if std::env::var("VERIF_VERBOSE").is_ok() {
+        eprintln!("[{:7.1}s] cli pass done ({} runs)", rep.elapsed(), n_cli.load(Ordering::Relaxed));
+    }
     rep.guard(counts.ok > 1000 && counts.err > 10000, "need both Ok and Err outcomes from the workers");
     rep.guard(n_single > 100_000, "fewer than 100k single-line programs");
     let origins: BTreeSet<&str> = meta.iter().map(|m| m.origin).collect();
@@ -577,6 +649,7 @@ pub fn run(tier: Tier) -> i32 {
         "structural_line_sequences": n_struct,
         "corpus_token_mutations": n_mut,
         "corpus_byte_mutations": n_bytemut,
+        "size_probes_through_the_dev_profile_cli": n_cli.load(Ordering::Relaxed),
         "worker_outcomes": {"ok": counts.ok, "err": counts.err, "hard_failures": counts.hard, "worker_restarts": counts.worker_restarts, "timeouts_rechecked": timeouts.lock().unwrap().len(), "confirmed_hangs": confirmed_hangs},
         "hard_failure_kinds": *hard_seen.lock().unwrap(),
         "caps_hit": [],
